@@ -1,108 +1,97 @@
 (* C09 proofs, part 11: the property statements, assembled from the per-class theorems. *)
 From Coq Require Import List ZArith QArith Bool Lia.
-From Gst Require Import C09.Model C09.Readers C09.Spec C09.Witness C09.Proofs_prim C09.Proofs_top C09.Proofs_refute.
+From Gst Require Import C09.Model C09.Readers C09.Spec C09.Witness C09.Proofs_prim C09.Proofs_loc C09.Proofs_top C09.Proofs_refute.
 Import ListNotations.
 Local Open Scope Z_scope.
 
-(* the seven modelled loaders on one file, reduced to what the property looks at *)
+(* the seven modelled loaders on one file *)
 Definition all_loaders (P : forall A, outcome A -> Prop) (E : env) (f : list Z) : Prop :=
   P _ (load_Db E f) /\ P _ (load_DbGrid E f) /\ P _ (load_Table E f) /\ P _ (load_Polygons E f) /\
   P _ (load_PolyElem E f) /\ P _ (load_PolyLine2D E f) /\ P _ (load_Faults E f).
+(* the five whose reader does not go through Db::setLocatorByUID *)
+Definition five_loaders (P : forall A, outcome A -> Prop) (E : env) (f : list Z) : Prop :=
+  P _ (load_Table E f) /\ P _ (load_Polygons E f) /\ P _ (load_PolyElem E f) /\ P _ (load_PolyLine2D E f) /\ P _ (load_Faults E f).
 
-(* hypotheses common to the positive theorems: files below 2 GB, the candidate fixes, fuel |f|+1 or more,
-   an allocation cap that is not below the proved bound *)
-Definition hyp (E : env) (f : list Z) : Prop :=
-  flen f < 2147483648 /\ fixed_env E f (alloc_bound_grid (flen f)).
+(* hypotheses: files below 2 GB; the code as it is now (or more fixes); fuel |f|+1 or more; allocation cap not below the bound *)
+Definition hyp_now (E : env) (f : list Z) : Prop := flen f < 2147483648 /\ now_env E f (alloc_bound_grid (flen f)).
+Definition hyp_fixed (E : env) (f : list Z) : Prop := flen f < 2147483648 /\ fixed_env E f (alloc_bound_grid (flen f)).
 
-Lemma hyp_lin : forall E f, hyp E f -> fixed_env E f (alloc_bound (flen f)).
+Lemma lin_of_grid : forall E f, now_env E f (alloc_bound_grid (flen f)) -> now_env E f (alloc_bound (flen f)).
 Proof.
-  intros E f [H1 [H2 [H3 H4]]]. split; [assumption|split; [assumption|]].
+  intros E f [H2 [H3 H4]]. split; [assumption|split; [assumption|]].
   assert (0 <= flen f) by (unfold flen; lia). unfold alloc_bound, alloc_bound_grid in *. nia.
 Qed.
+Lemma hyp_fixed_now : forall E f, hyp_fixed E f -> hyp_now E f.
+Proof. intros E f [H1 [H2 H3]]. split; assumption. Qed.
 
-Lemma good_all : forall E f, hyp E f ->
-  good_outcome wf_db (alloc_bound (flen f)) (load_Db E f) /\
-  good_outcome wf_dbgrid (alloc_bound_grid (flen f)) (load_DbGrid E f) /\
-  good_outcome wf_table (alloc_bound (flen f)) (load_Table E f) /\
-  good_outcome wf_polygons (alloc_bound (flen f)) (load_Polygons E f) /\
-  good_outcome wf_polyelem (alloc_bound (flen f)) (load_PolyElem E f) /\
-  good_outcome wf_polyline (alloc_bound (flen f)) (load_PolyLine2D E f) /\
-  good_outcome wf_faults (alloc_bound (flen f)) (load_Faults E f).
-Proof.
-  intros E f H. pose proof (hyp_lin _ _ H) as HL. destruct H as [H1 H2].
-  split; [apply load_Db_fixed; assumption|].
-  split; [apply load_DbGrid_fixed; assumption|].
-  split; [apply load_Table_fixed; assumption|].
-  split; [apply load_Polygons_fixed; assumption|].
-  split; [apply load_PolyElem_fixed; assumption|].
-  split; [apply load_PolyLine2D_fixed; assumption|].
-  apply load_Faults_fixed; assumption.
-Qed.
-
+Lemma safe_parts : forall A (o : outcome A), safe_outcome o -> no_oob o /\ no_hang o.
+Proof. intros A [a g|g|[s|k s|s]] H; simpl in *; try discriminate; repeat split. Qed.
 Lemma clean_parts : forall A (o : outcome A), clean o -> no_oob o /\ no_hang o /\ no_throw o.
 Proof. intros A [a g|g|[s|k s|s]] H; simpl in *; try contradiction; repeat split. Qed.
+Lemma clean_safe : forall A (o : outcome A), clean o -> safe_outcome o.
+Proof. intros A [a g|g|b] H; simpl in *; try contradiction; exact I. Qed.
 
-Lemma main_clean : forall E f, hyp E f -> all_loaders (fun A o => clean o) E f.
-Proof.
-  intros E f H. destruct (good_all E f H) as [[A1 _] [[A2 _] [[A3 _] [[A4 _] [[A5 _] [[A6 _] [A7 _]]]]]]].
-  unfold all_loaders. tauto.
-Qed.
-Lemma main_no_oob : forall E f, hyp E f -> all_loaders (fun A o => no_oob o) E f.
-Proof.
-  intros E f H. pose proof (main_clean E f H) as HC. unfold all_loaders in *.
-  destruct HC as [C1 [C2 [C3 [C4 [C5 [C6 C7]]]]]].
-  repeat split; match goal with |- no_oob ?o => apply (clean_parts _ o); assumption end.
-Qed.
-Lemma main_total : forall E f, hyp E f -> all_loaders (fun A o => no_hang o) E f.
-Proof.
-  intros E f H. pose proof (main_clean E f H) as HC. unfold all_loaders in *.
-  destruct HC as [C1 [C2 [C3 [C4 [C5 [C6 C7]]]]]].
-  repeat split; match goal with |- no_hang ?o => apply (clean_parts _ o); assumption end.
-Qed.
-Lemma main_no_throw : forall E f, hyp E f -> all_loaders (fun A o => no_throw o) E f.
-Proof.
-  intros E f H. pose proof (main_clean E f H) as HC. unfold all_loaders in *.
-  destruct HC as [C1 [C2 [C3 [C4 [C5 [C6 C7]]]]]].
-  repeat split; match goal with |- no_throw ?o => apply (clean_parts _ o); assumption end.
-Qed.
-Lemma main_alloc : forall E f, hyp E f ->
-  ghost_of (load_Db E f) <= alloc_bound (flen f) /\ ghost_of (load_DbGrid E f) <= alloc_bound_grid (flen f) /\
-  ghost_of (load_Table E f) <= alloc_bound (flen f) /\ ghost_of (load_Polygons E f) <= alloc_bound (flen f) /\
-  ghost_of (load_PolyElem E f) <= alloc_bound (flen f) /\ ghost_of (load_PolyLine2D E f) <= alloc_bound (flen f) /\
-  ghost_of (load_Faults E f) <= alloc_bound (flen f).
-Proof.
-  intros E f H. destruct (good_all E f H) as [[_ [A1 _]] [[_ [A2 _]] [[_ [A3 _]] [[_ [A4 _]] [[_ [A5 _]] [[_ [A6 _]] [_ [A7 _]]]]]]]].
-  repeat split; lia.
-Qed.
-Lemma main_wf : forall E f, hyp E f ->
-  (forall d, loaded (load_Db E f) d -> wf_db d) /\ (forall x, loaded (load_DbGrid E f) x -> wf_dbgrid x) /\
-  (forall t, loaded (load_Table E f) t -> wf_table t) /\ (forall l, loaded (load_Polygons E f) l -> wf_polygons l) /\
-  (forall p, loaded (load_PolyElem E f) p -> wf_polyelem p) /\ (forall p, loaded (load_PolyLine2D E f) p -> wf_polyline p) /\
-  (forall l, loaded (load_Faults E f) l -> wf_faults l).
-Proof.
-  intros E f H. destruct (good_all E f H) as [[_ [_ A1]] [[_ [_ A2]] [[_ [_ A3]] [[_ [_ A4]] [[_ [_ A5]] [[_ [_ A6]] [_ [_ A7]]]]]]]].
-  exact (conj A1 (conj A2 (conj A3 (conj A4 (conj A5 (conj A6 A7)))))).
-Qed.
-(* every prefix of every file, in particular of a valid one *)
-Lemma main_prefix : forall E f n, hyp E (firstn n f) -> all_loaders (fun A o => clean o) E (firstn n f).
-Proof. intros E f n H. apply main_clean. assumption. Qed.
-
-(* the six loaders whose allocations are linear in the counts need the linear cap only *)
-Lemma main_linear : forall E f, flen f < 2147483648 -> fixed_env E f (alloc_bound (flen f)) ->
-  good_outcome wf_db (alloc_bound (flen f)) (load_Db E f) /\
+Lemma good_five : forall E f, hyp_now E f ->
   good_outcome wf_table (alloc_bound (flen f)) (load_Table E f) /\
   good_outcome wf_polygons (alloc_bound (flen f)) (load_Polygons E f) /\
   good_outcome wf_polyelem (alloc_bound (flen f)) (load_PolyElem E f) /\
   good_outcome wf_polyline (alloc_bound (flen f)) (load_PolyLine2D E f) /\
   good_outcome wf_faults (alloc_bound (flen f)) (load_Faults E f).
 Proof.
-  intros E f H1 HL.
-  split; [apply load_Db_fixed; assumption|].
-  split; [apply load_Table_fixed; assumption|].
-  split; [apply load_Polygons_fixed; assumption|].
-  split; [apply load_PolyElem_fixed; assumption|].
-  split; [apply load_PolyLine2D_fixed; assumption|].
-  apply load_Faults_fixed; assumption.
+  intros E f [H1 H2]. pose proof (lin_of_grid _ _ H2) as HL.
+  split; [apply load_Table_now; assumption|].
+  split; [apply load_Polygons_now; assumption|].
+  split; [apply load_PolyElem_now; assumption|].
+  split; [apply load_PolyLine2D_now; assumption|].
+  apply load_Faults_now; assumption.
+Qed.
+Lemma safe_all : forall E f, hyp_now E f -> all_loaders (fun A o => safe_outcome o) E f.
+Proof.
+  intros E f H. destruct (good_five E f H) as [[A3 _] [[A4 _] [[A5 _] [[A6 _] [A7 _]]]]]. destruct H as [H1 H2].
+  unfold all_loaders. split; [apply load_Db_now; [assumption|apply lin_of_grid; assumption]|].
+  split; [apply load_DbGrid_now; assumption|].
+  repeat split; apply clean_safe; assumption.
+Qed.
+
+(* ---- the code as it is now *)
+Lemma main_no_oob : forall E f, hyp_now E f -> all_loaders (fun A o => no_oob o) E f.
+Proof.
+  intros E f H. pose proof (safe_all E f H) as HS. unfold all_loaders in *.
+  destruct HS as [C1 [C2 [C3 [C4 [C5 [C6 C7]]]]]].
+  repeat split; match goal with |- no_oob ?o => apply (safe_parts _ o); assumption end.
+Qed.
+Lemma main_total : forall E f, hyp_now E f -> all_loaders (fun A o => no_hang o) E f.
+Proof.
+  intros E f H. pose proof (safe_all E f H) as HS. unfold all_loaders in *.
+  destruct HS as [C1 [C2 [C3 [C4 [C5 [C6 C7]]]]]].
+  repeat split; match goal with |- no_hang ?o => apply (safe_parts _ o); assumption end.
+Qed.
+Lemma main_only_throw16 : forall E f, hyp_now E f -> all_loaders (fun A o => safe_outcome o) E f.
+Proof. exact safe_all. Qed.
+Lemma main_five : forall E f, hyp_now E f ->
+  good_outcome wf_table (alloc_bound (flen f)) (load_Table E f) /\
+  good_outcome wf_polygons (alloc_bound (flen f)) (load_Polygons E f) /\
+  good_outcome wf_polyelem (alloc_bound (flen f)) (load_PolyElem E f) /\
+  good_outcome wf_polyline (alloc_bound (flen f)) (load_PolyLine2D E f) /\
+  good_outcome wf_faults (alloc_bound (flen f)) (load_Faults E f).
+Proof. exact good_five. Qed.
+Lemma main_prefix : forall E f n, hyp_now E (firstn n f) -> all_loaders (fun A o => safe_outcome o) E (firstn n f).
+Proof. intros E f n H. apply safe_all. assumption. Qed.
+
+(* ---- with fixes/C09_5 *)
+Lemma main_db_fixed : forall E f, hyp_fixed E f ->
+  good_outcome wf_db (alloc_bound (flen f)) (load_Db E f) /\
+  good_outcome wf_dbgrid (alloc_bound_grid (flen f)) (load_DbGrid E f).
+Proof.
+  intros E f [H1 [H2 H3]]. split.
+  - apply load_Db_fixed; [assumption|]. split; [apply lin_of_grid; assumption|assumption].
+  - apply load_DbGrid_fixed; [assumption|]. split; assumption.
+Qed.
+Lemma main_clean_fixed : forall E f, hyp_fixed E f -> all_loaders (fun A o => clean o) E f.
+Proof.
+  intros E f H. destruct (main_db_fixed E f H) as [[A1 _] [A2 _]].
+  destruct (good_five E f (hyp_fixed_now _ _ H)) as [[A3 _] [[A4 _] [[A5 _] [[A6 _] [A7 _]]]]].
+  unfold all_loaders. tauto.
 Qed.
 
 (* the primitives never loop and never store, whatever the configuration *)
